@@ -296,7 +296,7 @@ class StageResult:
         self.hangs = []
         self.aborted = False
 
-def run_range(exe, margs, lo, hi, env, res, lock, timeout, label, prefix=()):
+def run_range(exe, margs, lo, hi, env, res, lock, timeout, label, prefix=(), requeue=None):
     """run cases lo..hi in one or more worker processes, restarting after a death"""
     cur = lo
     while cur < hi:
@@ -366,6 +366,8 @@ def run_range(exe, margs, lo, hi, env, res, lock, timeout, label, prefix=()):
         with lock:
             res.events.extend(local)
         if stopped[0]:
+            if requeue is not None and cur < hi:
+                requeue.put((cur, hi))
             return
         if rc == 0 and not killed[0]:
             if open_ev is not None:
@@ -391,6 +393,8 @@ def run_range(exe, margs, lo, hi, env, res, lock, timeout, label, prefix=()):
                     res.aborted = True   # cases keep hanging: stop the stage, the verdict comes from re-running them alone
             open_ev.worker_err = "watchdog"
             if res.aborted:
+                if requeue is not None and open_ev.idx + 1 < hi:
+                    requeue.put((open_ev.idx + 1, hi))
                 return
         else:
             kind = classify_death(rc, err)
@@ -415,7 +419,7 @@ def run_stage(cfgname, margs, ncases, seed, timeout=120, nworkers=None, extra_en
     q = queue.Queue()
     for lo in range(first, first + ncases, chunk):
         q.put((lo, min(first + ncases, lo + chunk)))
-    def worker():
+    def worker(tmo):
         while True:
             # a stage in which cases keep hanging is stopped: the verdict comes from the re-runs below
             if res.aborted:
@@ -424,25 +428,37 @@ def run_stage(cfgname, margs, ncases, seed, timeout=120, nworkers=None, extra_en
                 lo, hi = q.get_nowait()
             except queue.Empty:
                 return
-            run_range(exe, margs, lo, hi, env, res, lock, timeout, cfgname, prefix)
-    ths = [threading.Thread(target=worker) for _ in range(min(nworkers, q.qsize()))]
-    [t.start() for t in ths]
-    [t.join() for t in ths]
-    # re-run (at most 3) hangs once, alone, with a generous timeout; a second timeout is a hang verdict
-    hung = list(res.hangs[:2])
-    was_aborted = res.aborted
-    res.aborted = False
-    for ev, cmd in hung:
-        r2 = StageResult()
-        run_range(exe, margs, ev.idx, ev.idx + 1, env, r2, threading.Lock(), timeout * 2, cfgname + ":rerun", prefix)
-        if r2.hangs:
-            ev.fails.append((ev.keyprefix + "|hang", "case did not finish within %ds, and not within %ds when re-run alone" % (timeout, timeout * 2)))
-            ev.done = True
-            res.events.append(ev)
-        else:
-            res.events.extend(r2.events)
-            res.harness_failures.extend(r2.harness_failures)
-    res.aborted = was_aborted
+            run_range(exe, margs, lo, hi, env, res, lock, tmo, cfgname, prefix, requeue=q)
+    tmo = timeout
+    was_aborted = False
+    for attempt in range(2):
+        ths = [threading.Thread(target=worker, args=(tmo,)) for _ in range(min(nworkers, max(1, q.qsize())))]
+        [t.start() for t in ths]
+        [t.join() for t in ths]
+        # re-run (at most 2) hung cases once, alone, with a generous timeout; a second timeout is a hang verdict
+        hung = list(res.hangs[:2])
+        for ev, cmd in res.hangs[2:]:
+            q.put((ev.idx, ev.idx + 1))
+        was_aborted = res.aborted
+        res.aborted = False
+        res.hangs = []
+        confirmed = False
+        for ev, cmd in hung:
+            r2 = StageResult()
+            run_range(exe, margs, ev.idx, ev.idx + 1, env, r2, threading.Lock(), tmo * 2, cfgname + ":rerun", prefix)
+            if r2.hangs:
+                ev.fails.append((ev.keyprefix + "|hang", "case did not finish within %ds, and not within %ds when re-run alone" % (tmo, tmo * 2)))
+                ev.done = True
+                res.events.append(ev)
+                confirmed = True
+            else:
+                res.events.extend(r2.events)
+                res.harness_failures.extend(r2.harness_failures)
+        if confirmed or not was_aborted or q.empty():
+            break
+        # the timeouts did not reproduce (loaded machine?): resume the remaining cases with a longer watchdog
+        tmo = tmo * 3
+    res.aborted = was_aborted and not q.empty()
     if res.aborted and not any(k.endswith("|hang") for e in res.events for k, _ in e.fails):
         res.harness_failures.append("%s: stage stopped after repeated watchdog timeouts that did not reproduce alone (inconclusive)" % cfgname)
     res.hangs = []
